@@ -3,7 +3,7 @@
 Oracle = AST with semantics (vp/gen/asm_rv.py).  Pseudo-instructions are judged by EFFECT and
 compositionality (the group a statement assembles to alone must reappear wherever it occurs and must
 have the documented effect when executed by the reference interpreter), never by a pinned expansion."""
-from ..common import guarded, rng_for, h64, make_riscv, real_regs, M32
+from ..common import make_riscv_at, guarded, rng_for, h64, make_riscv, real_regs, M32
 from ..refmodels.rv32 import SeqRef, Fault, LOADS, STORES, sext
 from ..gen import asm_rv as A
 
@@ -39,8 +39,11 @@ def plan(prop, tier, seed):
 # --------------------------------------------------------------------------------------- helpers
 
 
-def load(text, data_start=None, **kw):
-    if data_start is not None:
+def load(text, data_start=None, ibase=None, **kw):
+    if ibase:
+        # an instruction memory with another address range (public constructor arguments): the program starts there
+        s = make_riscv_at("single", ibase, size=0x4000 - ibase)
+    elif data_start is not None:
         # a custom data memory whose address range starts elsewhere (public constructor arguments)
         from architecture_simulator.simulation.riscv_simulation import RiscvSimulation
         from architecture_simulator.uarch.riscv.riscv_architectural_state import RiscvArchitecturalState
@@ -139,6 +142,23 @@ def run_ast_case(case, res, prop):
     vars_, img, end = A.layout(ast["data"])
     rng = _random.Random(case["seed"])
     plain = A.Renderer(0, plain=True)
+    if ast["data"] and case["seed"] % 3 == 0 and any(s_["k"] in ("la", "ldv", "stv") for s_ in ast["stmts"]):
+        # a SIBLING program is assembled first in the same process (other simulation objects): the same text lines, but
+        # one more variable in front of the data segment, so every variable lives at another address.  What a line
+        # denotes depends on the program it stands in, not on what was assembled before.
+        sib = {"data": [{"name": "sib_pad_", "type": "word", "vals": [1, 2, 3]}] + list(ast["data"]), "stmts": ast["stmts"], "labels": ast["labels"]}
+        res.count("sibling_program_assembled_first")
+        for ri in [0] + list(case["renders"]):
+            try:
+                load(A.Renderer(ri, plain=(ri == 0)).program(sib, data_first=True) if ri == 0 else A.Renderer(ri).program(sib))
+            except Exception:
+                pass
+        for s_ in ast["stmts"]:
+            if s_["k"] in ("la", "ldv", "stv"):
+                try:
+                    group_of(s_, sib["data"], plain)
+                except Exception:
+                    pass
     # 1. groups of pseudo statements (assembled alone) judged by effect
     groups = []
     for s in ast["stmts"]:
@@ -194,6 +214,14 @@ def run_ast_case(case, res, prop):
                 RiscvParser().parse("\n".join(["addi x1, x1, 1"] * (len(exp) + 1 + ri % 7)), sim.state)
                 RiscvParser().parse(text, sim.state)
                 res.count("assembled_over_longer_program")
+            elif ri % 4 == 3:
+                # the simulation has an instruction cache and has already RUN another program: what is read from the
+                # instruction memory after load_program is the new program
+                sim = make_riscv("single", icache={"ib": ri % 2, "bb": 1 + ri % 2, "assoc": 1 + (ri >> 3) % 2, "policy": "lru", "pen": 0})
+                sim.load_program("\n".join(["addi x1, x1, 1"] * (len(exp) + 2)))
+                sim.run()
+                sim.load_program(text)
+                res.count("loaded_into_simulation_with_warm_instruction_cache")
             else:
                 sim = load(text)
         except Exception as e:
@@ -237,6 +265,27 @@ def run_ast_case(case, res, prop):
     except Exception as e:
         res.violation("C14", "listing-round-trip", "re-assembling the printed listing failed: %r" % (e,), case)
         return
+    if prop == "C14" and case["seed"] % 2 == 0:
+        # the same round trip in a simulation whose instruction memory starts elsewhere: the listing printed there
+        # re-assembles, there, to the same instructions at the same addresses
+        B = [0x40, 0x100, 0x404, 0x1000][(case["seed"] >> 1) % 4]
+        try:
+            sB = load(A.Renderer(case["renders"][-1]).program(ast), ibase=B)
+        except Exception:
+            sB = None  # does not fit behind that base, or numeric targets below it: nothing to compare
+        if sB is not None:
+            res.count("listing_round_trips_at_other_instruction_base")
+            lB = listing(sB)
+            try:
+                sB2 = load("\n".join(t for _, t in sB.state.instruction_memory.get_representation()), ibase=B)
+                lB2 = listing(sB2)
+            except Exception as e:
+                res.violation("C14", "listing-round-trip", "instruction memory starting at %#x: re-assembling the printed listing failed: %r" % (B, e), case)
+                return
+            if lB != lB2:
+                d_ = [(x, y) for x, y in zip(lB, lB2) if x != y][:1]
+                res.violation("C14", "listing-round-trip", "instruction memory starting at %#x: the printed listing re-assembles to other instructions, first difference %r" % (B, d_ or (len(lB), len(lB2))), case)
+                return
     # coverage flags
     refs = [s for s in ast["stmts"] if s["k"] in ("brl", "jall")]
     res.count("label_refs_checked", len(refs))
@@ -260,6 +309,7 @@ def _is_group_field(e):
 
 def check_image(sim, img, end, lo=None):
     m = sim.state.memory
+    cached = getattr(m, "memory", None)  # behind a data cache: logical contents through uncounted reads
     lo = A.DATA_BASE if lo is None else lo
     # every declared byte, guard bytes behind the segment, the first bytes of the data range (huge .zero
     # reservations are not walked byte by byte) and everything the backing store holds
@@ -267,10 +317,10 @@ def check_image(sim, img, end, lo=None):
     for a in sorted(probe):
         if a >= (1 << 32):
             continue
-        got = int(m.read_byte(a))
+        got = int(m.read_byte(a)) if cached is None else int(m.read_byte(a, False))
         if got != img.get(a, 0):
             return "data byte %#x = %#x, declared layout gives %#x" % (a, got, img.get(a, 0))
-    extra = [a for a, v in m.memory_file.items() if int(v) and a not in img]
+    extra = [a for a, v in (m if cached is None else cached).memory_file.items() if int(v) and a not in img]
     if extra:
         return "data written outside the declared layout at %s" % [hex(a) for a in sorted(extra)[:4]]
     return None
@@ -400,6 +450,26 @@ def run_data_case(case, res):
             if bad or badm:
                 res.violation("C05", "name-index-effect", "%s mode behind data cache %r: registers (reg, real, documented) %s, logical memory differs at %s" % (mode, case["dcache"], bad[:4], [(hex(a), gm.get(a, 0), mem.get(a, 0)) for a in badm[:4]]), case)
                 return
+            # the declared values are what a load leaves behind whatever the simulation (and its cache) held before:
+            # (a) the same text loaded again into the simulation that has just run it, (b) a fresh simulation that was
+            # first given a sibling program with other values, looked at through the cache, and then this program
+            for variant in ("after-run", "after-sibling"):
+                try:
+                    if variant == "after-sibling":
+                        sim = make_riscv(mode, dcache=case["dcache"])
+                        sib = [dict(d_, vals=[(v_ ^ 0x5A5A5A5A) for v_ in d_["vals"]]) if "vals" in d_ else d_ for d_ in data]
+                        sim.load_program(A.Renderer(case["renders"][1]).program({"data": sib, "stmts": stmts, "labels": {}}, data_first=True))
+                        _pipe.mem_image(sim, list(mem))
+                    sim.load_program(A.Renderer(case["renders"][0]).program(ast, data_first=case["renders"][1] % 2 == 0))
+                except Exception as e:
+                    res.violation("C05", "load-failed", "with data cache %r (%s, %s): %r" % (case["dcache"], mode, variant, e), case)
+                    return
+                res.count("data_images_compared_after_reload_behind_cache")
+                for _pass in (1, 2):
+                    badi = check_image(sim, img, end)
+                    if badi:
+                        res.violation("C05", "data-image", "%s mode behind data cache %r, program loaded %s (pass %d over the image): %s" % (mode, case["dcache"], variant, _pass, badi), case)
+                        return
     res.count("segment_orders_compared")
     types = {d["type"] for d in data}
     if len(types) >= 3 and any(s.get("idx") for s in stmts):
@@ -586,6 +656,28 @@ def build(m, kw, addr):
 
 def run_rt_case(case, res):
     """batch: instruction k sits at address 4k; its repr() is re-assembled at the same address"""
+    B = case.get("ibase", 0)
+    if B:
+        res.count("round_trip_batches_at_other_instruction_base")
+        objs = [build(m, kw, B + 4 * k) for k, (m, kw) in enumerate(case["instrs"])]
+        text = "\n".join(repr(o) for o in objs)
+        try:
+            sim = load(text, ibase=B)
+        except Exception as e:
+            res.violation("C14", "print-not-assemblable", "printed text failed to assemble into an instruction memory starting at %#x: %r\n%s" % (B, e, text[:300]), case)
+            return
+        im = sim.state.instruction_memory
+        for k, o in enumerate(objs):
+            res.count("round_trips")
+            try:
+                r = im.read_instruction(B + 4 * k)
+            except Exception as e:
+                res.violation("C14", "round-trip", "no instruction at %d after re-assembling %r (instruction memory starts at %#x)" % (B + 4 * k, o, B), case)
+                return
+            if type(r) is not type(o) or fields(r) != fields(o):
+                res.violation("C14", "round-trip", "address %d (instruction memory starts at %#x): %r (%s %r) re-assembles to %r (%s %r)" % (B + 4 * k, B, o, type(o).__name__, fields(o), r, type(r).__name__, fields(r)), case)
+                return
+        return
     objs = [build(m, kw, 4 * k) for k, (m, kw) in enumerate(case["instrs"])]
     text = "\n".join(repr(o) for o in objs)
     try:
@@ -844,6 +936,8 @@ def run_shard(spec, res):
         for it in range(spec["n"]):
             case = {"kind": "rt", "instrs": [list(x) for x in rt_candidates(rng, rng.choice([1, 8, 64]))]}
             case["instrs"] = [(m, kw) for m, kw in case["instrs"]]
+            if it % 4 == 3:
+                case["ibase"] = rng.choice([0x40, 0x100, 0x404, 0x1000, 0x2000])
             guarded(run_case, prop, case, res)
             res.evaluations += 1
             if it < 1:
